@@ -234,7 +234,7 @@ PROPS["C05"] = {
                   "progress is an assumption.",
 }
 PROPS["C04"] = {
-    "units": ["contracts.c04_worker"],
+    "units": ["contracts.c04_worker", "contracts.c04_pool", "contracts.c03_factory"],
     "bounded": True,
     "level": "other",
     "trusted_base": ["pyvc VC generator (/verif/pyvc)", "z3", "Python semantics as listed in DESIGN.md §2.3",
@@ -244,8 +244,12 @@ PROPS["C04"] = {
                    "exactly once and first, end exactly once and last on the normal AND on every exceptional exit (try/finally), begin_finished "
                    "set only after begin() returned, processed + remaining quota = initial quota (at most k chunks), the wid is posted on the "
                    "replace queue exactly when the quota is exhausted, and exactly one result (i, [f(x) for x in c]) is put per work item "
-                   "(i, c) on either branch of the queue.Full handling. Bounded only (real processes): until_all_ready, FunctorPool.__exit__ "
-                   "(one stop token per worker, joins), join-before-replace in ReplaceWorkerThread, 'no worker left running'.",
+                   "(i, c) on either branch of the queue.Full handling. Pool side: FunctorPool.__enter__ starts every worker exactly once, "
+                   "until_all_ready returns only after every worker's begin_finished is set, __exit__ puts exactly one stop token per worker "
+                   "and joins every worker that had not already exited (owed@join: a join is entered only on a worker that retired or after "
+                   "one stop token per worker was put), and the replace thread joins a retired worker BEFORE its slot is overwritten (no "
+                   "started and unjoined worker ever leaves procs): no worker is left running, replaced workers included. Bounded in "
+                   "addition: real-process scenarios.",
     "level_text": "Proof of the worker's run() against its lifecycle / quota / result contract; bounded real-process scenarios for the pool side.",
     "level_note": "end() is assumed not to raise; max_chunks_per_worker = math.inf (no quota) is the bounded layer's case.",
 }
@@ -310,6 +314,33 @@ PROPS["C02"] = {
     "level_text": "Safety surrogates of termination proved by contract (owed@ obligations); liveness itself only by bounded exploration.",
     "level_note": "Honest limit of the technique: fairness / progress cannot be expressed as a pre/postcondition; flow control (run_event) "
                   "waits are not covered deductively. Known finding F13 (retire-at-end-then-exit) is reported by the bounded layer.",
+}
+
+PROPS["C13"] = {
+    "units": ["contracts.c13_records", "contracts.c13_records:unit_files"],
+    "bounded": True,
+    "level": "other",
+    "trusted_base": ["pyvc VC generator (/verif/pyvc)", "z3", "Python semantics as listed in DESIGN.md §2.3",
+                     "AXIOMS about CPython's json / csv modules and int / float / str conversions (json.loads(json.dumps(d)) == d; "
+                     "csv reader(writer(row)) == row for cells without line breaks and the same delimiter; t(str(v)) == v; the outputs have no "
+                     "interior line break) - C code, exercised by the bounded layer only",
+                     "dataclasses (asdict, generated __init__, fields): a record is its field map",
+                     "io.StringIO: writing at position 0 into an empty buffer yields exactly what was written",
+                     "line-file layer by contract (proved in C11 / C12)"],
+    "explanation": "Deductive, for every record class (symbolic class object: field names, field types, delimiter) and every field map: "
+                   "JsonRecord.load = the decoded object restricted to the field names, JsonRecord.save = json of the field map; "
+                   "CSVRecord._dict_to_string returns exactly this record's row and re-establishes the invariant of the SHARED class-level "
+                   "StringIO (empty and rewound between calls; the cached DictWriter of a class writes that class's field names with that "
+                   "class's delimiter into that buffer) on both the cache-hit and the cache-miss path; CSVRecord.load zips names, types and "
+                   "cells in declaration order with the class's own delimiter (TSVRecord = another delimiter); the two round trips "
+                   "load(save(r)) == r are composition lemmas over those postconditions and the library axioms. Record files: "
+                   "BaseRecordFile._get_item = load(i-th line of the list view), BaseMutableRecordFile.__setitem__ / insert store save(r) "
+                   "through the C12 primitives and reject non-records. Bounded: the library axioms themselves (all short strings over the "
+                   "delimiter / quote / escape alphabet, ints, floats, nested JSON), 10^3-10^4 consecutive saves through the shared buffer, "
+                   "slices / iteration / save + reopen of record files.",
+    "level_text": "Proof of the repository's glue code over stated library axioms; the axioms and the file round trip are bounded.",
+    "level_note": "What json / csv do on every string is C code outside the verifier's reach: it enters as axioms (assumptions), never as proved. "
+                  "BaseMutableRecordFile.save (lazy generator expression) is bounded only.",
 }
 
 # properties not claimed, with the reason (everything else not in PROPS gets the generic "not built yet" reason)
